@@ -191,6 +191,60 @@ Proof.
   split; [cbn; lia|]. vm_compute. discriminate.
 Qed.
 
+(* NOT REPAIRED (known finding): under ECDHE_PSK a message cut INSIDE its identity hint is accepted.
+   The declared hint length (768) exceeds what is left, the decoder then silently re-reads the
+   input from offset 0 as ServerECDHParams: 03 | 00 1d | 20 | 32 bytes. *)
+Definition ske_long_hint : bytes := [29; 32] ++ repeat 0 (N.to_nat 766).
+
+Theorem ske_hint_trunc_refuted :
+  exists x e k, ske_wf 6 x = true /\ fst x = Some ske_long_hint /\ ske_enc x = Some e /\
+                (k < 2 + length ske_long_hint)%nat /\ (k < length e)%nat /\
+                ske_dec 6 (firstn k e) = Some (None, (3, (29, (repeat 0 (N.to_nat 32), (0, (0, [])))))).
+Proof.
+  exists (Some ske_long_hint, (3, (29, (repeat 66 (N.to_nat 32), (0, (0, [])))))). eexists. exists 36%nat.
+  split; [vm_compute; reflexivity|]. split; [reflexivity|]. split; [reflexivity|].
+  split; [vm_compute; lia|]. split; [vm_compute; lia|]. vm_compute. reflexivity.
+Qed.
+
+(* NOT REPAIRED (known finding): the ServerKeyExchange encoder writes byte(len(PublicKey)) and
+   uint16(len(IdentityHint)) / uint16(len(Signature)) without a check.  A 256-byte public key is
+   written behind the length byte 0 and the result is rejected by the decoder; a 65536-byte hint
+   is written behind the length 0.  [ske_wf] (the premise of [ske_roundtrip]) excludes both. *)
+Theorem ske_enc_wrap_refuted :
+  (exists x e, ske_enc x = Some e /\ len (fst (snd (snd (snd x)))) = 256 /\ ske_wf 4 x = false /\ ske_dec 4 e = None) /\
+  (exists x e, ske_enc x = Some e /\ fst x = Some (repeat 104 (N.to_nat 65536)) /\ ske_wf 2 x = false /\
+               ske_dec 2 e = None).
+Proof.
+  split.
+  - exists (None, (3, (29, (repeat 7 (N.to_nat 256), (0, (0, [])))))). eexists.
+    split; [reflexivity|]. split; [vm_compute; reflexivity|]. split; vm_compute; reflexivity.
+  - exists (Some (repeat 104 (N.to_nat 65536)), (0, (0, ([], (0, (0, [])))))). eexists.
+    split; [reflexivity|]. split; [reflexivity|]. split; vm_compute; reflexivity.
+Qed.
+
+(* NOT REPAIRED (known finding): ClientKeyExchange.Marshal picks the layout from the nil-ness of
+   the fields, Unmarshal from the key-exchange algorithm, and the identity length is written as
+   uint16(len) without a check.  [cke_wf kx] (the premise of the round-trip theorem) excludes
+   these values; the encoder does not refuse them. *)
+Theorem cke_enc_outside_domain_refuted :
+  (* ECDHE_PSK without an identity: encoded without the identity vector, rejected *)
+  (exists x e, cke_enc x = Some e /\ fst x = None /\ cke_wf 6 x = false /\ cke_dec 6 e = None) /\
+  (* PSK with a public key: the key is encoded and the decoder drops it *)
+  (exists x e y, cke_enc x = Some e /\ cke_wf 2 x = false /\ cke_dec 2 e = Some y /\ snd x <> None /\ snd y = None) /\
+  (* a 65536-byte identity is written behind the length 0: the decoder returns the empty identity *)
+  (exists x e, cke_enc x = Some e /\ fst x = Some (repeat 105 (N.to_nat 65536)) /\ cke_wf 2 x = false /\
+               cke_dec 2 e = Some (Some [], None)).
+Proof.
+  split; [|split].
+  - exists (None, Some (repeat 32 (N.to_nat 32))). eexists.
+    split; [reflexivity|]. split; [reflexivity|]. split; vm_compute; reflexivity.
+  - exists (Some [105; 100], Some (repeat 32 (N.to_nat 32))). eexists. eexists.
+    split; [reflexivity|]. split; [vm_compute; reflexivity|]. split; [vm_compute; reflexivity|].
+    split; [discriminate|reflexivity].
+  - exists (Some (repeat 105 (N.to_nat 65536)), None). eexists.
+    split; [reflexivity|]. split; [reflexivity|]. split; vm_compute; reflexivity.
+Qed.
+
 (* ------------------------------------------------------------------ CertificateRequest *)
 
 Lemma sound_cr_types : sound c_cr_types.
@@ -391,7 +445,7 @@ Theorem certreq_enc_wrap_as_coded_refuted :
   exists x e, cr_wf (fst x, (fst (snd x), [])) = true /\ cr_enc_gen true x = Some e /\
               cr_dec e = Some (fst x, (fst (snd x), [])) /\ snd (snd x) <> [] /\ cr_enc x = None.
 Proof.
-  exists ([64], ([(4, 3)], [repeat 170 65534])). eexists.
+  exists ([64], ([(4, 3)], [repeat 170 (N.to_nat 65534)])). eexists.
   split; [vm_compute; reflexivity|]. split; [reflexivity|].
   split; [vm_compute; reflexivity|]. split; [discriminate|]. vm_compute. reflexivity.
 Qed.
